@@ -4,6 +4,9 @@ package main
 
 import (
 	"fmt"
+	"regexp"
+	"sort"
+	"strconv"
 	"go/ast"
 	"go/token"
 	"go/types"
@@ -51,6 +54,12 @@ func (e *Exec) evCall(c *ast.CallExpr) Val {
 				}
 			}
 			args = append(args, e.evConv(a, pt))
+		}
+		if f, ok := fv.(FuncV); ok && f.Fn != nil && f.Fn.Pkg() != nil && f.Fn.Name() == "FilterAddrs" &&
+			f.Fn.Pkg().Path() == "github.com/multiformats/go-multiaddr" && len(args) >= 1 && !c.Ellipsis.IsValid() {
+			res := e.filterAddrs(c, args[0], args[1:])
+			e.recordCallEvent(c, args[:1], res)
+			return res
 		}
 		if sig != nil && sig.Variadic() && !c.Ellipsis.IsValid() {
 			// pack variadic arguments into a fresh slice
@@ -865,4 +874,158 @@ func (e *Exec) havocPkgFields(path string) {
 		e.st.heap[k] = e.fresh("Hx."+k, e.heapSort[k])
 		e.logWrite(k, "*")
 	}
+}
+
+// filterAddrs models ma.FilterAddrs(addrs, preds...) (trusted semantics of the library function: the result is a
+// sub-list of addrs whose every element made every predicate return true; each predicate is run on elements of
+// addrs only). The predicates are the real closures / method values of the caller: each is executed once on a
+// symbolic element, its result term is generalised over the result's elements, and the captured variables it
+// assigns are havoc'd (it may have run any number of times).
+func (e *Exec) filterAddrs(c *ast.CallExpr, in Val, preds []Val) Val {
+	t := e.typeOf(c)
+	src, ok := in.(SliceV)
+	if !ok {
+		return e.havocVal("filtered", t)
+	}
+	et := elemType(t)
+	e.trusted["library semantics of ma.FilterAddrs (result = order-preserving sub-list satisfying every predicate)"] = true
+	base := e.allocRef("filtered")
+	out := SliceV{Base: base, Off: "0", Len: e.fresh("flen", SInt), Cap: e.fresh("fcap", SInt)}
+	e.addFact(mkAnd(sx("<=", "0", out.Len), sx("<=", out.Len, src.Len), sx("<=", out.Len, out.Cap)))
+	key, sort := elemsKey(et)
+	// contents of the result: some array of handles; every element occurs in the input
+	arr := e.fresh("farr", SArrI)
+	h := e.heapGet(key, sort)
+	e.heapSet(key, sort, mkStore(h, base, arr))
+	h = e.heapGet(key, sort)
+	e.declareFun("fsrc", []string{SInt, SInt}, SInt)
+	e.addFact(fmt.Sprintf("(forall ((j Int)) (! (=> (and (<= 0 j) (< j %s)) (and (<= 0 (fsrc %s j)) (< (fsrc %s j) %s) (= (select %s j) (select (select %s %s) (+ %s (fsrc %s j)))))) :pattern ((select %s j))))",
+		out.Len, base, base, src.Len, arr, h, src.Base, src.Off, base, arr))
+	for pi, pv := range preds {
+		// symbolic element
+		hx := e.fresh("felem", SInt)
+		var elem Val
+		if kindOf(et) == kSlice {
+			elem = e.handleSlice(hx)
+		} else {
+			elem = iv(hx)
+		}
+		// run the predicate on a copy of the state to obtain its result term; side effects: havoc assigned captures
+		saved := e.st
+		e.st = saved.clone()
+		nf := len(e.facts)
+		var res Val
+		switch f := pv.(type) {
+		case FuncV:
+			if f.Lit != nil {
+				res = e.inlineLit(f, []Val{elem}, c)
+			} else if f.Fn != nil {
+				res = e.callValueNoEvent(c, f, []Val{elem}, types.Typ[types.Bool])
+			}
+			// captured variables assigned by the predicate change arbitrarily
+			if f.Lit != nil && f.Pkg != nil {
+				for _, v := range assignedFreeVars(f.Lit, f.Pkg.TypesInfo) {
+					if _, ok := saved.vars[v]; ok {
+						saved.vars[v] = e.havocVal(v.Name(), v.Type())
+					}
+				}
+			}
+		}
+		resT := ""
+		if sv, ok := res.(SV); ok && sv.S == SBool {
+			resT = sv.T
+		}
+		pcT := e.st.pc
+		// facts produced while running the predicate mention the symbolic element: generalise them together with
+		// the result under one quantifier over the result's positions
+		local := append([]string{}, e.facts[nf:]...)
+		e.facts = e.facts[:nf]
+		e.st = saved
+		if resT == "" {
+			e.warn("FilterAddrs predicate %d could not be evaluated symbolically", pi)
+			continue
+		}
+		_ = pcT
+		// "the predicate returned true on this element": the run's defining facts and its result, with every symbol
+		// created during the run turned into a function of the position (one run per element)
+		body := mkAnd(append(local, resT)...)
+		elemAt := fmt.Sprintf("(select %s j!f)", arr)
+		hn := symNum(hx)
+		for _, name := range freshSymbolsAfter(body, hn) {
+			srt, ok := e.declared[name]
+			if !ok || strings.HasPrefix(srt, "(") && !strings.HasPrefix(srt, "(Array") {
+				continue // not a constant
+			}
+			fk := "fk." + name
+			e.declareFun(fk, []string{SInt}, srt)
+			body = replaceSymbol(body, name, "("+fk+" j!f)")
+		}
+		body = replaceSymbol(body, hx, elemAt)
+		e.addFact(fmt.Sprintf("(forall ((j!f Int)) (! (=> (and (<= 0 j!f) (< j!f %s)) %s) :pattern ((select %s j!f))))", out.Len, body, arr))
+	}
+	return out
+}
+
+// hasFreshAfter reports whether term t mentions a generated symbol numbered above the one in name.
+func hasFreshAfter(t, name string) bool {
+	i := strings.LastIndex(name, "!")
+	if i < 0 {
+		return false
+	}
+	n, err := strconv.Atoi(name[i+1:])
+	if err != nil {
+		return false
+	}
+	return !invariantTerm(t, n)
+}
+
+func symNum(name string) int {
+	i := strings.LastIndex(name, "!")
+	if i < 0 {
+		return 0
+	}
+	n, _ := strconv.Atoi(name[i+1:])
+	return n
+}
+
+var symRe = regexp.MustCompile(`[A-Za-z_$][A-Za-z0-9_.$]*![0-9]+`)
+
+// freshSymbolsAfter lists generated symbols (name!N) in t with N > n.
+func freshSymbolsAfter(t string, n int) []string {
+	seen := map[string]bool{}
+	var out []string
+	for _, m := range symRe.FindAllString(t, -1) {
+		if symNum(m) > n && !seen[m] {
+			seen[m] = true
+			out = append(out, m)
+		}
+	}
+	// longer names first so that replacement of a prefix does not corrupt a longer symbol
+	sort.Slice(out, func(i, j int) bool { return len(out[i]) > len(out[j]) })
+	return out
+}
+
+// replaceSymbol replaces whole-token occurrences of sym in t.
+func replaceSymbol(t, sym, by string) string {
+	var b strings.Builder
+	i := 0
+	for i < len(t) {
+		j := strings.Index(t[i:], sym)
+		if j < 0 {
+			b.WriteString(t[i:])
+			break
+		}
+		j += i
+		end := j + len(sym)
+		okL := j == 0 || t[j-1] == ' ' || t[j-1] == '('
+		okR := end == len(t) || t[end] == ' ' || t[end] == ')'
+		b.WriteString(t[i:j])
+		if okL && okR {
+			b.WriteString(by)
+		} else {
+			b.WriteString(sym)
+		}
+		i = end
+	}
+	return b.String()
 }
